@@ -990,6 +990,27 @@ fn gen_case(rng: &mut Rng, thorough: bool, stats: &mut Stats, out: &mut Vec<Stri
 	let clocks_on = std::env::var("KV_SYSCORE_NOCLOCKS").is_err();
 	let rate_on = std::env::var("KV_SYSCORE_NORATE").is_err();
 	let steps = if thorough { rng.range(20, 70) } else { rng.range(10, 36) };
+	if rng.chance(3, 4) {
+		// an audible bed: a looping (or long) sound at unity so that effects, tracks and the final stage have signal
+		let len = rng.pick(&[64u64, 100, 1000, 4000]);
+		let sr2 = rng.pick(&[8000u64, 22050, 44100, 48000]);
+		g.sounds += 1;
+		out.push(format!(
+			"play -1 {} {} {} f{} f{} f{} {} 0 n=0 - imm",
+			match rng.below(4) {
+				0 => "idx".to_string(),
+				1 => "lr".to_string(),
+				2 => format!("dc={}", o32(0.25)),
+				_ => format!("rnd={}", rng.below(1 << 30)),
+			},
+			len,
+			sr2,
+			o32(rng.pick(&[0.0f32, -6.0, -20.0])),
+			o64(rng.pick(&[1.0, 1.0, 0.5, 2.0])),
+			o32(0.0),
+			if rng.chance(2, 3) { "n=0~end" } else { "none" }
+		));
+	}
 	for _ in 0..steps {
 		let line = match rng.below(48) {
 			0 | 1 => {
@@ -1023,8 +1044,8 @@ fn gen_case(rng: &mut Rng, thorough: bool, stats: &mut Stats, out: &mut Vec<Stri
 					}
 				)
 			}
-			6 | 7 if clocks_on => format!("clock.cmd {} {}", rng.below(3), rng.pick(&["start", "start", "pause", "stop"])),
-			8 if clocks_on => format!(
+			6 | 7 if clocks_on && g.clocks > 0 => format!("clock.cmd {} {}", rng.below(3), rng.pick(&["start", "start", "pause", "stop"])),
+			8 if clocks_on && g.clocks > 0 => format!(
 				"clock.speed {} {} {}",
 				rng.below(3),
 				rng.pick(&["tps=4000000000000000", "tpm=4056800000000000", "spt=3fd0000000000000", "tps=408f400000000000"]),
@@ -1045,8 +1066,8 @@ fn gen_case(rng: &mut Rng, thorough: bool, stats: &mut Stats, out: &mut Vec<Stri
 				g.tweeners += 1;
 				format!("tweener {}", o64(rng.pick(&[0.0, 1.0, -1.0, 0.5])))
 			}
-			11 | 12 if g.mods => format!("tweener.set {} {} {}", rng.below(3), o64(rng.pick(&[0.0, 1.0, -1.0, 0.5, 2.0, -0.25])), gen_tween(rng, &g)),
-			13 if g.mods => match rng.below(4) {
+			11 | 12 if g.mods && g.tweeners > 0 => format!("tweener.set {} {} {}", rng.below(3), o64(rng.pick(&[0.0, 1.0, -1.0, 0.5, 2.0, -0.25])), gen_tween(rng, &g)),
+			13 if g.mods && g.lfos > 0 => match rng.below(4) {
 				0 => format!("lfo.wave {} {}", rng.below(3), rng.pick(&["sin", "tri", "saw", "pul:3fd0000000000000"])),
 				1 => format!("lfo.phase {} {}", rng.below(3), o64(rng.pick(&[0.0, 3.0, -3.0, 100.0]))),
 				_ => format!(
@@ -1058,17 +1079,17 @@ fn gen_case(rng: &mut Rng, thorough: bool, stats: &mut Stats, out: &mut Vec<Stri
 				),
 			},
 			14..=19 => gen_play(rng, &mut g),
-			20 | 21 => match rng.below(5) {
+			20 | 21 if g.sounds > 0 => match rng.below(5) {
 				0 => format!("snd {} resume_at {} {}", rng.below(5), gen_start(rng, &g), gen_tween(rng, &g)),
 				_ => format!("snd {} {} {}", rng.below(5), rng.pick(&["pause", "resume", "stop", "pause"]), gen_tween(rng, &g)),
 			},
-			22 => format!(
+			22 if g.sounds > 0 => format!(
 				"snd.seek {} {} {}",
 				rng.below(5),
 				rng.pick(&["to", "by"]),
 				o64(rng.pick(&[0.0, 0.01, -0.01, 1.0, 0.5, 100.0, -100.0, 0.001]))
 			),
-			23 | 24 => match rng.below(3) {
+			23 | 24 if g.sounds > 0 => match rng.below(3) {
 				0 => format!("snd.set {} vol {} {}", rng.below(5), gen_db(rng, &g), gen_tween(rng, &g)),
 				1 => format!(
 					"snd.set {} rate {} {}",
@@ -1078,7 +1099,7 @@ fn gen_case(rng: &mut Rng, thorough: bool, stats: &mut Stats, out: &mut Vec<Stri
 				),
 				_ => format!("snd.set {} pan {} {}", rng.below(5), v32(rng, &g, PANS), gen_tween(rng, &g)),
 			},
-			25 => format!(
+			25 if g.sounds > 0 => format!(
 				"snd.loop {} {}",
 				rng.below(5),
 				match rng.below(3) {
@@ -1087,7 +1108,7 @@ fn gen_case(rng: &mut Rng, thorough: bool, stats: &mut Stats, out: &mut Vec<Stri
 					_ => format!("n={}~n={}", rng.below(8), rng.below(12)),
 				}
 			),
-			26 | 27 => match rng.below(6) {
+			26 | 27 if g.tracks > 0 => match rng.below(6) {
 				0 | 1 => format!("trk {} vol {} {}", rng.below(4), gen_db(rng, &g), gen_tween(rng, &g)),
 				2 => format!("trk {} pause {}", rng.below(4), gen_tween(rng, &g)),
 				3 => format!("trk {} resume {}", rng.below(4), gen_tween(rng, &g)),
@@ -1095,7 +1116,7 @@ fn gen_case(rng: &mut Rng, thorough: bool, stats: &mut Stats, out: &mut Vec<Stri
 				_ => format!("trk {} send {} {} {}", rng.below(4), rng.below(3), gen_db(rng, &g), gen_tween(rng, &g)),
 			},
 			28 => format!("main.vol {} {}", gen_db(rng, &g), gen_tween(rng, &g)),
-			29 => format!("send.vol {} {} {}", rng.below(3), gen_db(rng, &g), gen_tween(rng, &g)),
+			29 if g.sends > 0 => format!("send.vol {} {} {}", rng.below(3), gen_db(rng, &g), gen_tween(rng, &g)),
 			30 | 31 if g.fxs > 0 => {
 				let (param, v) = match rng.below(12) {
 					0 => ("cutoff", v64(rng, &g, &[100.0, 4000.0, 20000.0, 20.0])),
